@@ -227,12 +227,28 @@ class SimEvent(object):
     return self._flag
 
 
+# synchronisation objects created while no simulation is current live for the whole process (module-level locks of
+# miros adopted at install time, locks of objects built at import).  A run that is torn down while one of its threads
+# holds such a lock would leave it owned for ever: they are released at the start of every run.
+_process_sync_objects = []
+
+
+def reset_process_sync_objects():
+  for o in _process_sync_objects:
+    if isinstance(o, SimRLock):
+      o._owner, o._count = None, 0
+    elif isinstance(o, SimLock):
+      o._locked = False
+
+
 class SimRLock(object):
 
   def __init__(self):
     self._owner = None
     self._count = 0
     self._label = _label('rlock')
+    if current_sim() is None:
+      _process_sync_objects.append(self)
 
   def acquire(self, blocking=True, timeout=-1):
     _y(30)
@@ -292,6 +308,8 @@ class SimLock(object):
   def __init__(self):
     self._locked = False
     self._label = _label('lock')
+    if current_sim() is None:
+      _process_sync_objects.append(self)
 
   def acquire(self, blocking=True, timeout=-1):
     _y(32)
